@@ -80,14 +80,20 @@ class OptimizerBase(abc.ABC):
             self.grid.update(junction.index, clamp.position)
             return junction.quality
 
-        sensitivities = np.asarray(
-            scipy.optimize.approx_fprime(clamp.params, lambda p: fquality(clamp, junction, p), epsilon=10 * TOL)
-        )
+        try:
+            sensitivities = np.asarray(
+                scipy.optimize.approx_fprime(clamp.params, lambda p: fquality(clamp, junction, p), epsilon=10 * TOL)
+            )
+            sensitivity = np.linalg.norm(sensitivities)
+        except ValueError:
+            # the probe stepped out of the clamp's bounds or into a degenerate cell:
+            # nothing can be said about this clamp, optimize it last
+            sensitivity = 0
 
         clamp.update_params(initial_params)
         self.grid.update(junction.index, clamp.position)
 
-        return np.linalg.norm(sensitivities)
+        return sensitivity
 
     def optimize_iteration(self, method: MinimizationMethodType) -> None:
         clamps = sorted(self.grid.clamps, key=lambda c: self._get_sensitivity(c), reverse=True)
